@@ -27,6 +27,8 @@ pub enum Mode {
     Columnar,
     Joins,
     Parallel,
+    /// C32: a query over a view / CTE vs the same query over the inlined derived table
+    Views,
 }
 
 pub struct Mask {
@@ -66,6 +68,7 @@ impl Mask {
                 Config { name: "definitional".into(), mask: mask_of(&JOIN_SITES), parallel: Some(3), schedule: 0 },
                 Config { name: format!("partial{:x}", self.partial_mask), mask: self.partial_mask, parallel: Some(3), schedule: 0 },
             ],
+            Mode::Views => vec![Config { name: "default".into(), mask: 0, parallel: Some(3), schedule: 0 }],
             Mode::Parallel => vec![
                 Config { name: "never".into(), mask: 0, parallel: Some(3), schedule: 0 },
                 Config { name: "always.s1".into(), mask: 0, parallel: Some(0), schedule: 1 },
@@ -240,6 +243,102 @@ impl Mask {
         Some(op)
     }
 
+    /// A view definition: every view exposes two columns `a` (INTEGER-valued) and `b`.
+    /// Returns (CREATE VIEW text, defining query with the column names as aliases).
+    fn view_def(&self, rng: &mut Rng, name: &str) -> Option<(String, String)> {
+        let names = self.world.table_names();
+        if names.is_empty() {
+            return None;
+        }
+        let t = &self.world.tables[rng.pick(&names)];
+        let ints: Vec<&ColDef> = t.cols.iter().filter(|c| c.ty == Ty::Int).collect();
+        if ints.is_empty() {
+            return None;
+        }
+        let ca = &rng.pick(&ints).name;
+        let cb = &t.cols[rng.usize(t.cols.len())].name;
+        let o = PredOpts { truthy: false, mixed_numeric: false, allow_or_not: true };
+        let pred = gen_pred(rng, &self.sw, &self.sut, t, o);
+        let tn = &t.name;
+        let views: Vec<&String> = self.world.views.keys().collect();
+        Some(match rng.below(8) {
+            0 | 1 => {
+                let q = format!("SELECT {ca} AS a, {cb} AS b FROM {tn} WHERE {pred}");
+                (format!("CREATE VIEW {name} AS {q}"), q)
+            }
+            2 => {
+                // explicit column list on the view, aliases only in the inlined form
+                let q = format!("SELECT {ca} AS a, {cb} AS b FROM {tn}");
+                (format!("CREATE VIEW {name} (a, b) AS SELECT {ca}, {cb} FROM {tn}"), q)
+            }
+            3 => {
+                let q = format!("SELECT {ca} + 1 AS a, {cb} AS b FROM {tn} WHERE {pred}");
+                (format!("CREATE VIEW {name} AS {q}"), q)
+            }
+            4 => {
+                let q = format!("SELECT {ca} AS a, COUNT(*) AS b FROM {tn} GROUP BY {ca}");
+                (format!("CREATE VIEW {name} AS {q}"), q)
+            }
+            5 => {
+                let u = &self.world.tables[rng.pick(&names)];
+                let ui: Vec<&ColDef> = u.cols.iter().filter(|c| c.ty == Ty::Int).collect();
+                if ui.is_empty() {
+                    return None;
+                }
+                let cu = &rng.pick(&ui).name;
+                let un = &u.name;
+                let q = format!("SELECT x.{ca} AS a, y.{cu} AS b FROM {tn} x, {un} y WHERE x.{ca} = y.{cu}");
+                (format!("CREATE VIEW {name} AS {q}"), q)
+            }
+            6 if !views.is_empty() => {
+                // view over view; the inlined form nests the inner view's definition
+                let inner = rng.pick(&views).to_string();
+                let inner_q = self.world.views[&inner].clone();
+                let lit = rng.range(0, self.sw.domain);
+                let q = format!("SELECT i.a AS a, i.b AS b FROM ({inner_q}) AS i WHERE i.a <= {lit}");
+                (format!("CREATE VIEW {name} AS SELECT i.a AS a, i.b AS b FROM {inner} i WHERE i.a <= {lit}"), q)
+            }
+            _ => {
+                let q = format!("SELECT DISTINCT {ca} AS a, {ca} AS b FROM {tn}");
+                (format!("CREATE VIEW {name} AS {q}"), q)
+            }
+        })
+    }
+
+    fn view_family(&self, rng: &mut Rng) -> Option<Op> {
+        let views: Vec<(&String, &String)> = self.world.views.iter().collect();
+        if views.is_empty() {
+            return None;
+        }
+        let (vn, q) = *rng.pick(&views);
+        let lit = rng.range(-1, self.sw.domain + 1);
+        let names = self.world.table_names();
+        let outer = match rng.below(7) {
+            0 => "SELECT v.a, v.b FROM {SRC} v".to_string(),
+            1 => format!("SELECT v.a, v.b FROM {{SRC}} v WHERE v.a {} {}", rng.pick(&Cmp::ALL).sql(), lit),
+            2 => format!("SELECT v.b FROM {{SRC}} v WHERE v.a = {} OR v.a IS NULL", lit),
+            3 => "SELECT COUNT(*), COUNT(v.a), MIN(v.a), MAX(v.a) FROM {SRC} v".to_string(),
+            4 => "SELECT v.a, COUNT(*) FROM {SRC} v GROUP BY v.a".to_string(),
+            5 if !names.is_empty() => {
+                let t = &self.world.tables[rng.pick(&names)];
+                let ints: Vec<&ColDef> = t.cols.iter().filter(|c| c.ty == Ty::Int).collect();
+                if ints.is_empty() {
+                    "SELECT v.a FROM {SRC} v".to_string()
+                } else {
+                    format!("SELECT v.a, t.{c} FROM {{SRC}} v, {tn} t WHERE v.a = t.{c}", c = rng.pick(&ints).name, tn = t.name)
+                }
+            }
+            _ => format!("SELECT DISTINCT v.a FROM {{SRC}} v WHERE v.a >= {}", lit),
+        };
+        let by_view = outer.replace("{SRC}", vn);
+        let by_derived = outer.replace("{SRC}", &format!("({}) AS", q)).replace(") AS v", ") AS v");
+        let by_cte = format!("WITH w AS ({}) {}", q, outer.replace("{SRC}", "w"));
+        let mut op = Op::new(Kind::Probe, by_view);
+        op.cols = vec![by_derived, by_cte];
+        op.name = Some("view_family".into());
+        Some(op)
+    }
+
     fn parallel_probe(&self, rng: &mut Rng) -> Option<Op> {
         let o = crate::probe::ProbeOpts::default();
         let p = crate::probe::batch(rng, &self.sw, &self.sut, &self.world, o, 1).pop()?;
@@ -279,6 +378,7 @@ impl Scenario for Mask {
             "C03" => Mode::Columnar,
             "C05" => Mode::Joins,
             "C04" => Mode::Parallel,
+            "C32" => Mode::Views,
             other => panic!("mask scenario does not serve {}", other),
         };
         verif::set_skip_mask(0);
@@ -339,6 +439,19 @@ impl Scenario for Mask {
         if let Some(p) = self.pending.pop() {
             return Some(p);
         }
+        if self.mode == Mode::Views && (self.world.views.is_empty() || rng.chance(1, 6)) {
+            if self.world.views.len() >= 3 && rng.chance(1, 2) {
+                let vs: Vec<String> = self.world.views.keys().cloned().collect();
+                let v = rng.pick(&vs).clone();
+                return Some(Op::new(Kind::DropView, format!("DROP VIEW {}", v)).named(&v));
+            }
+            let name = self.world.fresh_name("v");
+            if let Some((ddl, q)) = self.view_def(rng, &name) {
+                let mut op = Op::new(Kind::CreateView, ddl).named(&name);
+                op.pred = Some(q);
+                return Some(op);
+            }
+        }
         let sw = self.sw.clone();
         let names = self.world.table_names();
         if names.is_empty() {
@@ -364,6 +477,7 @@ impl Scenario for Mask {
                 Mode::Columnar => self.columnar_probe(rng),
                 Mode::Joins => self.join_family(rng),
                 Mode::Parallel => self.parallel_probe(rng),
+                Mode::Views => self.view_family(rng),
             };
             if let Some(p) = p {
                 self.pending.push(p);
